@@ -105,14 +105,14 @@ CLAIMS = {
     "C13": (
         "parity composition of compiler ordering and runtime scan, iterator-lifetime and suspension-site rules",
         "Decides that the latest enabled interrupt clause wins (compiler reversal x runtime scan parity), that the compiler's re-entrant state is saved / restored and emitted break/continue/return are re-visited in the enclosing context, that blocks resume where they "
-        "stopped, that every suspension is followed by an invariant check, that guards are checked at start and that abandoned sub-behaviours "
+        "stopped, that every suspension is followed by an invariant check (with the agent as its subject), that guards are checked at start -- the delayed check of the top-level scenario on every simulation -- and that abandoned sub-behaviours "
         "are stopped. Does NOT decide behaviour for every interleaving.",
         "DESIGN.md section 3 C13",
     ),
     "C14": (
         "global write/reset accounting, context-manager restore rule, definite-assignment of cleanup reads, must-use token analysis",
         "Decides that every veneer state global is reset in the phase that writes it, that per-run state of the reused top-level scenario is reset, that context managers restore in finally, that the "
-        "simulation cleanup cannot be skipped or crash on unassigned attributes, that override undo records are kept on every path, and that "
+        "simulation cleanup cannot be skipped or crash on unassigned attributes, that a scenario marked as running is registered for cleanup or unmarked when its start fails, that override undo records are kept on every path, and that "
         "requirement evaluation restores what it rebinds. Does NOT decide third-party simulator cleanup.",
         "DESIGN.md section 3 C14",
     ),
@@ -131,8 +131,8 @@ CLAIMS = {
     "C18": (
         "writer/reader format symmetry, fail-closed read dataflow, error-conversion wrapping, RNG-free closure of dependency-serialised nodes, sign domain",
         "Decides struct format/size/tag symmetry of all codecs and headers, that every read fails closed, that decoding errors are "
-        "SerializationErrors, that dependency-serialised nodes are deterministic, that run-time samples are recorded, that the record and replay streams are independent and symmetric and go through the conditioned object, and that divergence is a "
-        "magnitude. Does NOT decide round-trip equality for all programs.",
+        "SerializationErrors, that dependency-serialised nodes are deterministic, that run-time samples are recorded and no run-time code draws from the global generators directly, that the record and replay streams are independent and symmetric and go through the conditioned object, and that divergence is a "
+        "magnitude of the difference compared with the tolerance (or an exact comparison) on every path. Does NOT decide round-trip equality for all programs.",
         "DESIGN.md section 3 C18",
     ),
     "C19": (
